@@ -325,7 +325,12 @@ fn execute(stream_id: u8, chunk_id: u8, hist: &[Op]) -> Outcome {
                         errors += 1;
                         // composite operations (a prefix or several items are consumed before the failure, or the
                         // in-memory reader refuses an over-long request up front) leave the position unspecified
-                        if !matches!(op, Op::ReadU8 | Op::PeekU8 | Op::ReadU16 | Op::ReadU32 | Op::ReadU64 | Op::ReadU128 | Op::Slice(_) | Op::Vec(_) | Op::Arr(_) | Op::Eor(_) | Op::HasMore) {
+                        let atomic = matches!(op, Op::ReadU8 | Op::PeekU8 | Op::ReadU16 | Op::ReadU32 | Op::ReadU64 | Op::ReadU128 | Op::Slice(_) | Op::Vec(_) | Op::Arr(_) | Op::Eor(_) | Op::HasMore);
+                        // read_many consumes item by item in both readers alike (no up-front refusal in this version of the
+                        // library), so the position behind its failure is defined as well - unless the source has stalled:
+                        // then the adapter may have given up before the items the in-memory reader still consumed
+                        let itemwise = matches!(op, Op::ManyU16(_)) && !stalled;
+                        if !(atomic || itemwise) {
                             dead = true;
                             break;
                         }
